@@ -1254,7 +1254,16 @@ def c08(rep, tier):
                 why.append('the whole location is erased from potential_breaks (%s): other sites of the same line are lost while '
                            'line_info still reports them' % show(unguarded0[0].e)[:70])
             elif pb_map_er:
-                cannot = 'the location is erased only when its list is empty, but the removal of the popped site from that list was not recognised'
+                # is there any mutation of a site list at all (pop_back, erase, remove, assignment) that the recogniser may have missed?
+                other_mut = [x for x in walk_all_exprs(f['body']) if x.get('k') == 'call' and x.get('obj') is not None and
+                             m.callee(x).split('::')[-1] in ('pop_back', 'erase', 'resize', 'assign', 'operator=', 'clear', 'swap') and
+                             field_chain(strip_casts(x['obj']))[1][-1:] not in (['potential_breaks'], ['line_info'], ['code'])]
+                other_mut += [x for x in walk_all_exprs(f['body']) if x.get('k') == 'call' and (x.get('callee') or '').split('<')[0] in ('std::erase', 'std::erase_if', 'std::remove', 'std::ranges::remove')]
+                if not other_mut:
+                    why.append('the location is erased from potential_breaks only when its list has no other site, and nothing removes the popped site from a list that has: '
+                               'the popped site stays listed (and is reused by the next instruction emitted at that position)')
+                else:
+                    cannot = 'the location is erased only when its list is empty, but the removal of the popped site from that list was not recognised'
             else:
                 why.append('the popped site stays listed in potential_breaks')
         unguarded_map_erase = []
@@ -2452,10 +2461,12 @@ def variable_view_rule(R, rep):
     rep.analysed(f)
     ok = False
     why = 'no assignment res[name] = data[data_start + register] found'
+    gm0 = GenModel.__new__(GenModel)
+    gm0.facts, gm0._defs, gm0._cfg = vf, {}, {}
     for st in walk_stmts(f['body']):
         if st['k'] != 'rangefor':
             continue
-        rng = show(st['range'])
+        rng = show(gm0.inline_value(f, st['range']))       # (through local references: const auto &names = ...stack_maps[..].map)
         if not rng.endswith('.map') and not rng.endswith('->map'):
             continue
         ev = st['var']
@@ -2468,7 +2479,7 @@ def variable_view_rule(R, rep):
             key = show(tgt['args'][0])
             vtxt = show(val)
             idx_ok = False
-            v = strip_casts(val)
+            v = strip_casts(gm0.inline_value(f, val))
             if is_call(v, '::operator[]') and field_chain(v['obj'])[1][-1:] == ['data']:
                 idx = show(v['args'][0])
                 o = strip_casts(v['args'][0])
